@@ -164,6 +164,61 @@ func c09(c *Ctx) {
 			}
 		}
 	}
+	// R6: one acknowledgement per registration – notifyAll takes the waiting
+	// set away from the follower before voting, so a later response of the
+	// same follower cannot vote on the same future again
+	if fn := c.Fn("R6", "(*followerReplication).notifyAll"); fn != nil {
+		notify := c.P.LookupField("followerReplication", "notify")
+		var rng *ssa.Range
+		engine.EachInstr(fn, func(in ssa.Instruction) {
+			if r, ok := in.(*ssa.Range); ok {
+				rng = r
+			}
+		})
+		var loadIn ssa.Instruction
+		if rng != nil {
+			if u, ok := rng.X.(*ssa.UnOp); ok {
+				loadIn = u
+			}
+		}
+		r := c.Run(&engine.Automaton{Fn: fn, Tracks: []engine.Track{
+			engine.Event("locked", c.P.IsCallTo(engine.Is("(*sync.Mutex).Lock"))),
+			engine.Event("taken", func(in ssa.Instruction) bool { return loadIn != nil && in == loadIn }),
+			engine.Event("reset", func(in ssa.Instruction) bool {
+				if notify == nil {
+					return false
+				}
+				v, ok := c.P.StoredValue(in, notify)
+				return ok && strings.HasPrefix(c.P.D(v), "make(map[*verifyFuture]struct{}")
+			}),
+		}})
+		votes := c.P.CallsIn(fn, engine.Is("(*verifyFuture).vote"))
+		if len(votes) == 0 || loadIn == nil {
+			c.Bad("R6", "notifyAll:votes", c.P.Pos(fn.Pos()), "notifyAll ranges over the waiting set and calls vote on each future", "not recognised")
+		}
+		okSrc := loadIn != nil && c.P.D(loadIn.(ssa.Value)) == "recv.notify"
+		for _, s := range votes {
+			c.RequireAt(r, "R6", "notifyAll:waiting-set-taken-before-voting", s.Instr, "the futures voted on are the follower's waiting set read under the lock, and that set was replaced by a fresh empty map before any vote is cast (each registration yields at most one acknowledgement per follower)", func(v engine.View) bool {
+				return okSrc && v.Seen("locked") && v.Seen("taken") && v.Seen("reset") && c.P.Arg(s.Instr, 0) == "p1" && strings.HasPrefix(c.P.D(engine.RecvValue(s.Instr)), "key(range recv.notify)")
+			})
+		}
+		if notify != nil {
+			c.WhoMay("R6", "write followerReplication.notify", c.P.FieldWrites(notify), map[string]string{
+				"(*Raft).startStopReplication":     "fresh map when replication to the peer starts",
+				"(*followerReplication).notifyAll": "waiting set handed over and replaced",
+			})
+			var dels, adds []engine.Site
+			for _, s := range c.P.MapWrites(notify) {
+				if _, ok := s.Instr.(*ssa.MapUpdate); ok {
+					adds = append(adds, s)
+				} else {
+					dels = append(dels, s)
+				}
+			}
+			c.WhoMay("R6", "delete from followerReplication.notify", dels, map[string]string{"(*followerReplication).cleanNotify": "future resolved by the leader loop"})
+			_ = adds
+		}
+	}
 	// R4
 	sNotify(c, "R4")
 	sMatch(c, "R4/S-MATCH")
